@@ -20,7 +20,7 @@ Extraction "model.ml"
   Spec.VarCheck.check_write Spec.VarCheck.check_write_short Spec.VarCheck.check_read Spec.VarCheck.check_read_legacy Spec.VarCheck.run_store
   Spec.DevCheck.check_boot_order Spec.DevCheck.check_load_option Spec.DevCheck.load_option_decodes
   Spec.DevCheck.check_hd_text Spec.DevCheck.check_file_text Model.Device.parse_device_path
-  Spec.SafetyCheck.check_safety Spec.FaultCheck.check_fault Spec.PureCheck.check_pure
+  Spec.SafetyCheck.check_safety Spec.FaultCheck.check_fault Spec.FaultCheck.check_call_order Spec.PureCheck.check_pure
   Spec.P7Check.check_verify Spec.P7Check.check_accepts Spec.P7Check.model_verify Spec.P7Check.check_p7_parse
   Spec.P7Check.p7_parses Spec.P7Check.check_reencode Spec.P7Check.check_sign Base.Sha256.sha256
   Spec.PECheck.check_pe_parse Spec.PECheck.check_pe_flip
